@@ -423,6 +423,21 @@ FAILING = [
 
 
 @st.composite
+def failing_incantation_program(draw):
+    """A main file that carries the experimental-syntax incantation and then FAILS to
+    parse: whatever the parser switched on must not outlive the failed parse."""
+    where = draw(st.sampled_from(['comment', 'block_comment']))
+    inc = '# ' + INCANTATION if where == 'comment' else '/* ' + INCANTATION + ' */'
+    broken = draw(st.sampled_from(['P(x :- T(x);', 'P(x) :- T(x', 'P(x) :- T(x)) ;',
+                                   'P("a) :- T(x);']))
+    text = '@Engine("sqlite");\n%s\nT(%d);\n%s\nTest(x) :- T(x);\n' % (
+        inc, draw(st.integers(0, 99)), broken)
+    return {'text': text, 'preds': ['Test'],
+            'labels': ['shape:failing', 'failing:incantation_then_parse_error'],
+            'role': 'failing', 'multiset': False}
+
+
+@st.composite
 def failing_program(draw):
     name, text, pred = draw(st.sampled_from(FAILING))
     # make items distinct: a harmless extra fact with a drawn constant
